@@ -341,7 +341,9 @@ def prop_exact(case, ctx):
             w2 = outcome_weights(res2)
             keys = set(w) | set(w2)
             bad = max(abs(w.get(k, 0.0) - w2.get(k, 0.0)) for k in keys)
-            if bad > TOL:
+            # shots=None results are documented to be "filtered to non-zero probabilities"
+            # (np.isclose(p, 0), i.e. below 1e-8): an outcome may be dropped on one side
+            if bad > TOL + 1e-8:
                 k = max(keys, key=lambda k: abs(w.get(k, 0.0) - w2.get(k, 0.0)))
                 raise Violation(f"C03:exact:{sim}:sequential-vs-joint",
                                 f"outcome {k}: joint {w.get(k, 0.0)!r}, sequential {w2.get(k, 0.0)!r}")
@@ -399,7 +401,8 @@ def check_projection(desc, res, ctx):
     # nothing dropped: every outcome with positive probability is a branch
     total_pre = float(np.sum(np.abs(vec) ** 2))
     total_w = sum(float(b.frequency) for b in res.branches)
-    if abs(total_pre - total_w) > TOL:
+    # every outcome below 1e-8 is dropped by the documented zero-probability filter
+    if abs(total_pre - total_w) > TOL + 1e-8 * len(basis):
         raise Violation("C03:exact:PF:weights-vs-norm-of-measured-state",
                         f"weights sum to {total_w!r}, squared norm of the measured state "
                         f"{total_pre!r}")
